@@ -196,8 +196,12 @@ class Interp:
                  inline_properties: bool = False,
                  inline_closures: bool = True,
                  unique_method_fallback: bool = True,
-                 auto_inline: bool = True):
+                 auto_inline: bool = True,
+                 known_len: Optional[Callable[[T], Optional[int]]] = None):
         self._narrow = []
+        # lengths the *rule* knows from the documented data layout (e.g. a
+        # positions array has three columns); used to unroll a zip()
+        self.known_len = known_len
         self.prog = prog
         self._explicit_inline = inline
         self.auto_inline = auto_inline
@@ -872,6 +876,10 @@ class Interp:
         """lengths the path condition fixes: `len(x) == n` holds / its
         negation has already left the path (raise, return)"""
         def kl(x: T) -> Optional[int]:
+            if self.known_len is not None:
+                v = self.known_len(x)
+                if v is not None:
+                    return v
             ln = tm.call(tm.glob("builtins.len"), (x,), ())
             for a in tm.atoms(live):
                 if a.op == "cmp" and a.args[0] in ("Eq", "NotEq") and \
@@ -2324,6 +2332,9 @@ def literal_items(it: T, unname=lambda v: v, known_len=None
     if it.op == "const" and isinstance(tm.const_val(it), str) and \
             len(tm.const_val(it)) <= 8:
         return [const(ch) for ch in tm.const_val(it)]   # characters
+    if it.op == "dict" and len(it.args) <= 8 and all(
+            isinstance(kv, tuple) and tm.is_const(kv[0]) for kv in it.args):
+        return [kv[0] for kv in it.args]                # keys, in order
     if it.op == "sub" and it.args[1].op == "slice":
         base = unname(it.args[0])
         lo, hi, st = it.args[1].args
@@ -2354,7 +2365,7 @@ def literal_items(it: T, unname=lambda v: v, known_len=None
                 for k, x in enumerate(inner)]
     if name == "builtins.zip" and it.args[1] and not it.args[2]:
         cols = [literal_items(a, unname) for a in it.args[1]]
-        if known_len is not None and any(c is not None for c in cols):
+        if known_len is not None:
             for k, a in enumerate(it.args[1]):
                 n = known_len(a) if cols[k] is None else None
                 if n is not None and 0 <= n <= 8:
